@@ -206,6 +206,7 @@ func execC09(c *simrt.Ctx) {
 	}
 	// Recover every image.
 	var pendingTorn *simrt.Violation
+	seenFile := false
 	c.Do("recover", func() {
 		for _, b := range bounds {
 			if c.Failed() {
@@ -230,8 +231,18 @@ func execC09(c *simrt.Ctx) {
 				}
 				path := fmt.Sprintf("%s/%d", dir, h.shard)
 				if _, err := os.Stat(path); err != nil {
-					continue // crash before the fragment file existed
+					if !seenFile {
+						continue // crash before the fragment file existed
+					}
+					// the data file existed at an earlier boundary and is gone now: a restarted
+					// view lists the directory, finds no fragment and starts empty
+					if empty := ""; states[b.op] != empty && !(b.inflight && b.op+1 < len(states) && states[b.op+1] == empty) {
+						c.Fail("lost-acked", "image at fs-op #%d (%s, during op %d %s%v inflight=%v): the fragment's data file is missing although it existed before; a restart finds no fragment\n before: %s", b.n, b.what, b.op, opK(ops, b.op), opI(ops, b.op), b.inflight, states[b.op])
+						return
+					}
+					continue
 				}
+				seenFile = true
 				f := h.newFrag(path)
 				f.snapshotQueue = nil
 				if err := f.Open(); err != nil {
@@ -353,7 +364,10 @@ func opI(ops []simrt.Op, i int) []int64 {
 
 // ---- key-translation store ------------------------------------------------------
 
-var c09Keys = []string{"a", "b", "c", "ünï", "", strings.Repeat("L", 5000), strings.Repeat("m", 4085), strings.Repeat("n", 4096), "k7", "k8", "k9"}
+// keys of many lengths, so that single entries and batches cross the sizes a buffered
+// writer might use (4 KiB, 64 KiB, 256 KiB)
+var c09Keys = []string{"a", "b", "c", "ünï", "", strings.Repeat("L", 5000), strings.Repeat("m", 4085), strings.Repeat("n", 4096), "k7", "k8", "k9",
+	strings.Repeat("p", 40000), strings.Repeat("q", 70000), strings.Repeat("r", 300000), strings.Repeat("s", 30000)}
 
 func genC09Keys(r *simrt.Rand) *simrt.Plan {
 	p := &simrt.Plan{Knobs: map[string]int64{"mode": 1}, Sched: simrt.Config{Seed: int64(r.Uint64() >> 1)}}
